@@ -32,6 +32,11 @@ impl PanicInfo {
 /// the same signature.
 pub fn normalize_message(msg: &str) -> String {
     let first = msg.lines().next().unwrap_or("");
+    // structured payloads (pest pairs, debug dumps of values) are data, not part of the site's identity
+    let first = match first.find(|c| c == '(' || c == '[' || c == '{') {
+        Some(pos) if pos >= 12 => &first[..pos],
+        _ => first,
+    };
     let mut out = String::new();
     let mut in_quote = false;
     let mut last_hash = false;
@@ -101,16 +106,18 @@ fn clean_symbol(sym: &str) -> String {
 
 fn enclosing_function() -> String {
     let bt = std::backtrace::Backtrace::force_capture().to_string();
+    if std::env::var("VERIF_DEBUG_BT").is_ok() { eprintln!("{bt}"); }
     for line in bt.lines() {
         let l = line.trim_start();
         // frame lines look like "12: symbol"; location lines look like "at file:line:col"
         if l.starts_with("at ") {
             continue;
         }
-        let Some((num, sym)) = l.split_once(": ") else { continue };
-        if !num.chars().all(|c| c.is_ascii_digit()) {
-            continue;
-        }
+        // frame lines look like "12: symbol"; frames inlined into it follow as bare "symbol" lines
+        let sym = match l.split_once(": ") {
+            Some((num, sym)) if !num.is_empty() && num.chars().all(|c| c.is_ascii_digit()) => sym,
+            _ => l,
+        };
         if is_subject_symbol(sym) {
             return clean_symbol(sym);
         }
@@ -173,4 +180,8 @@ pub fn catch<T>(f: impl FnOnce() -> T) -> Result<T, PanicInfo> {
             function: "?".into(),
         })),
     }
+}
+
+pub fn debug_backtrace() -> String {
+    std::backtrace::Backtrace::force_capture().to_string()
 }
